@@ -35,6 +35,8 @@ T3Aligns == {None, 1, 2, 4, 8, 16}
 T3Palette == {"u8", "u16", "u32", "cptr", "N"}
 (* base sub-objects (with and without a vftable of their own) and a vftable block that is *)
 (* not the first statement                                                                *)
+(* derive(Default): satisfiable only when every field type is defaultable itself *)
+Q5Palette == {"u32", "cptr", "N", "dN", "E", "dE", "arrNx2", "arrdNx2"}
 Q4Addrs == {None, 0, 8}
 Q4Palette == {"u8", "u32", "cptr", "bN", "bV"}
 
@@ -50,6 +52,11 @@ HelperS == [TypeDef("S", "pub", <<Field("a", "pub", <<>>, TNm("u64"), None, FALS
               EXCEPT !.size = 12, !.align = 8]
 HelperE == EnumDef("E", "pub", TNm("u16"), <<Variant("A", NumNone, FALSE), Variant("B", NumNone, FALSE)>>)
 HelperX == ExtType("X", 8, 4)
+HelperDN == [TypeDef("DN", "pub", <<Field("a", "pub", <<>>, TNm("u16"), None, FALSE),
+                                     Field("b", "pub", <<>>, TNm("u16"), None, FALSE)>>)
+               EXCEPT !.align = 2, !.defaultable = TRUE]
+HelperDE == [EnumDef("DE", "pub", TNm("u16"), <<Variant("A", NumNone, FALSE), Variant("B", NumNone, TRUE)>>)
+               EXCEPT !.defaultable = TRUE]
 HelperV == [TypeDef("V", "pub", <<Field("k", "pub", <<>>, TNm("u32"), None, FALSE)>>)
               EXCEPT !.vft = Vft(None, <<Func("vf", "pub", <<>>, <<ArgM>>, TNone, None, None, "")>>)]
 IsBaseChoice(c) == c \in {"bN", "bV"}
@@ -63,7 +70,8 @@ PaletteTypes ==
    arr8x3 |-> TArr(TNm("u8"), 3), arr16x2 |-> TArr(TNm("u16"), 2), arr32x0 |-> TArr(TNm("u32"), 0),
    unk2 |-> TUnk(2), unk0 |-> TUnk(0),
    N |-> TNm("N"), arrNx2 |-> TArr(TNm("N"), 2), Z |-> TNm("Z"), E |-> TNm("E"), X |-> TNm("X"),
-   pN |-> TCPtr(TNm("N")), S |-> TNm("S"), bN |-> TNm("N"), bV |-> TNm("V")]
+   pN |-> TCPtr(TNm("N")), S |-> TNm("S"), bN |-> TNm("N"), bV |-> TNm("V"),
+   dN |-> TNm("DN"), dE |-> TNm("DE"), arrdNx2 |-> TArr(TNm("DN"), 2)]
 
 RECURSIVE Mentions(_, _)
 Mentions(ty, n) ==
@@ -79,10 +87,12 @@ FieldSeqs == UNION {[1..n -> FieldChoices] : n \in 0..MaxFields}
 
 (* the late vftable block comes with the base-bearing palette *)
 VftPositions == IF "bN" \in Palette THEN {0, 1} ELSE {0}
+(* ... and `defaultable` on the main type with the palette that holds defaultable helpers *)
+Defaultables == IF "dN" \in Palette THEN {FALSE, TRUE} ELSE {FALSE}
 
 VftOne == Vft(None, <<Func("vf", "pub", <<>>, <<ArgM>>, TNone, None, None, "")>>)
 
-MkInput(ptr, fs, size, align, packed, vft, vpos) ==
+MkInput(ptr, fs, size, align, packed, vft, vpos, dflt) ==
   LET fields == [i \in DOMAIN fs |->
                    Field(IF fs[i].name = "_" THEN "_" ELSE FieldNames[i], "pub", <<>>,
                          PaletteTypes[fs[i].ty], fs[i].addr, IsBaseChoice(fs[i].ty))]
@@ -92,8 +102,10 @@ MkInput(ptr, fs, size, align, packed, vft, vpos) ==
                  \o (IF uses("E") THEN <<HelperE>> ELSE <<>>)
                  \o (IF uses("S") THEN <<HelperS>> ELSE <<>>)
                  \o (IF uses("V") THEN <<HelperV>> ELSE <<>>)
+                 \o (IF uses("DN") THEN <<HelperDN>> ELSE <<>>)
+                 \o (IF uses("DE") THEN <<HelperDE>> ELSE <<>>)
       T == [TypeDef("T", "pub", fields) EXCEPT !.size = size, !.align = align,
-                                               !.packed = packed,
+                                               !.packed = packed, !.defaultable = dflt,
                                                !.vft = IF vft THEN [VftOne EXCEPT !.pos = vpos] ELSE NoVft]
       m == [Module(<<"m">>, <<>>, helpers \o <<T>>)
               EXCEPT !.exts = IF uses("X") THEN <<HelperX>> ELSE <<>>]
@@ -101,10 +113,10 @@ MkInput(ptr, fs, size, align, packed, vft, vpos) ==
 
 MCInit ==
   /\ \E ptr \in Ptrs, fs \in FieldSeqs, size \in Sizes, align \in Aligns,
-        packed \in WithPacked, vft \in WithVft, vpos \in VftPositions :
+        packed \in WithPacked, vft \in WithVft, vpos \in VftPositions, dflt \in Defaultables :
         /\ (vpos > 0 => (vft /\ Len(fs) >= vpos))
         /\ (\A i \in DOMAIN fs : fs[i].name = "_" => ~IsBaseChoice(fs[i].ty))
-        /\ input = MkInput(ptr, fs, size, align, packed, vft, vpos)
+        /\ input = MkInput(ptr, fs, size, align, packed, vft, vpos, dflt)
   /\ InitRest
 
 MCSpec == MCInit /\ [][Next]_vars /\ WF_vars(Next)
@@ -117,8 +129,11 @@ TPath == <<"m", "T">>
 
 (* C03 is stated for descriptions over scalars, pointers, arrays and gaps  *)
 PlainInput ==
-  \A i \in DOMAIN input.mods[1].defs[TIdx].fields :
-     ~(\E n \in {"N", "Z", "E", "X", "S", "V"} : Mentions(input.mods[1].defs[TIdx].fields[i].ty, n))
+  (* ... with the vftable block, if any, where the grammar of accepted descriptions puts it *)
+  /\ input.mods[1].defs[TIdx].vft.pos = 0
+  /\ ~input.mods[1].defs[TIdx].defaultable
+  /\ \A i \in DOMAIN input.mods[1].defs[TIdx].fields :
+     ~(\E n \in {"N", "Z", "E", "X", "S", "V", "DN", "DE"} : Mentions(input.mods[1].defs[TIdx].fields[i].ty, n))
 
 (* known finding classes (section 4 of DESIGN.md); each is FALSE once the  *)
 (* corresponding repair is in                                              *)
